@@ -261,6 +261,7 @@ class VirtualMtime:
 
     def __init__(self):
         self.t = 1000
+        self.low = 500
         self.seen = {}
         self.mt = {}
 
@@ -275,10 +276,15 @@ class VirtualMtime:
         return float(self.mt[path])
 
     def external_write(self, path, data, bump):
+        """bump: 1 = newer mtime, 0 = same mtime (write within the clock's granularity), -1 = OLDER mtime
+        (an old file moved into place)"""
         with open(path, "wb") as fh:
             fh.write(data)
         self.seen[path] = data
-        if bump or path not in self.mt:
+        if bump < 0:
+            self.low -= 1
+            self.mt[path] = self.low
+        elif bump or path not in self.mt:
             self.t += 1
             self.mt[path] = self.t
 
@@ -364,6 +370,7 @@ class Model:
         self.plain = {}  # key -> pid | None
         self.unterminated = None  # index of an unterminated skipped last line of the last load (diagnosis only)
         self.readded = set()  # keys set again after a delete while their token survived (diagnosis only)
+        self.orphaned = set()  # keys deleted since the last load
         self.bound = False
         self.autosave = False
         self.loaded_mt = 0
@@ -383,7 +390,7 @@ class Model:
             else:
                 _, key, h = it
                 if key in recs:
-                    tokens.append(["skip", line])
+                    tokens.append(["dup", key, h])  # first occurrence wins; the later line is kept verbatim
                 else:
                     recs[key] = ("exact", h)
                     plain[key] = self.mat.infer_plain(key, h)
@@ -391,40 +398,51 @@ class Model:
         while tokens and tokens[-1][0] == "skip" and not tokens[-1][1].strip(WS):
             tokens.pop()
         unterminated = None
-        if data and not data.endswith(b"\n") and tokens and tokens[-1][0] == "skip":
+        if data and not data.endswith(b"\n") and tokens and tokens[-1][0] in ("skip", "dup"):
             unterminated = len(tokens) - 1
         return tokens, recs, plain, unterminated
 
-    def load_bytes(self, data):
-        self.tokens, self.recs, self.plain, self.unterminated = self.parse(data)
+    def adopt(self, parsed):
+        self.tokens, self.recs, self.plain, self.unterminated = parsed
         self.readded = set()
+        self.orphaned = set()
+
+    def load_bytes(self, data):
+        self.adopt(self.parse(data))
 
     # -- export --------------------------------------------------------------
     def export_items(self):
+        """expected lines: ("skip", raw) | ("rec", key, hash expectation) | ("dup", key, hash).
+        A shadowed duplicate line belongs to its user: it is written while the user exists and must be
+        invisible once the user is deleted."""
         out = []
         for tok in self.tokens:
             if tok[0] == "skip":
-                it = classify(tok[1], self.nf)
-                if it[0] == "rec":
-                    out.append(("rec", it[1], ("exact", it[2])))
-                else:
-                    out.append(("skip", tok[1]))
+                out.append(("skip", tok[1]))
+            elif tok[0] == "dup":
+                if tok[1] in self.recs:
+                    out.append(("dup", tok[1], tok[2]))
             elif tok[1] in self.recs:
                 out.append(("rec", tok[1], self.recs[tok[1]]))
         return out
 
     def snapshot(self):
-        return (self.export_items(), dict(self.recs))
+        # duplicates of a user that was deleted (and maybe set again) since the load may stay dropped
+        return {"items": self.export_items(), "recs": dict(self.recs), "optional": set(self.orphaned)}
 
     def snapshot_of(self, data):
         items, first, _c, _b = read_db(data, self.nf)
-        exp = []
+        exp, seen = [], set()
         for it in items:
             if it[0] == "rec":
-                exp.append(("rec", it[1], ("exact", it[2])))
+                if it[1] in seen:
+                    exp.append(("dup", it[1], it[2]))
+                else:
+                    seen.add(it[1])
+                    exp.append(("rec", it[1], ("exact", it[2])))
             else:
                 exp.append((it[0], it[1]))
-        return (exp, {k: ("exact", h) for k, h in first.items()})
+        return {"items": exp, "recs": {k: ("exact", h) for k, h in first.items()}, "optional": set()}
 
     # -- edits ---------------------------------------------------------------
     def put(self, key, hexp, pid):
@@ -442,12 +460,13 @@ class Model:
         if key in self.recs:
             del self.recs[key]
             del self.plain[key]
+            self.orphaned.add(key)
             return True
         return False
 
     def canon(self):
         return (
-            tuple((t[0], t[1]) for t in self.tokens),
+            tuple(tuple(t) for t in self.tokens), tuple(sorted(self.orphaned, key=repr)),
             tuple(sorted(self.recs.items(), key=repr)),
             tuple(sorted(self.plain.items(), key=repr)),
             self.bound, self.autosave,
@@ -462,16 +481,17 @@ def hash_matches(actual, hexp, mat):
     return any(ssha_verifies(actual, c) for c in cands)
 
 
-def compare_db(data, exp_items, exp_recs, mat):
-    """independent reader vs expectation -> list of (failure class, description, key or None)"""
+def compare_db(data, snap, mat):
+    """independent first-match reader vs expectation -> [(failure class, description, key or None)] (first failure)"""
     nf = mat.nf
+    exp_items, exp_recs, optional = snap["items"], snap["recs"], snap["optional"]
     items, first, counts, bad = read_db(data, nf)
     fails = []
     exp_bad = [it[1] for it in exp_items if it[0] == "bad"]
     if bad != exp_bad:
         odd = [b for b in bad if b not in exp_bad] or bad or exp_bad
         fails.append(("unparseable_line", f"line {core.short(odd[0], 60)} is neither a record, a comment nor blank", None))
-    exp_counts = collections.Counter(it[1] for it in exp_items if it[0] == "rec")
+    exp_counts = collections.Counter(it[1] for it in exp_items if it[0] in ("rec", "dup"))
     for key, hexp in exp_recs.items():
         if key not in first:
             fails.append(("missing_user", f"current user {key!r} is not in the text", key))
@@ -484,22 +504,37 @@ def compare_db(data, exp_items, exp_recs, mat):
         if key in exp_recs and counts[key] > exp_counts.get(key, 0):
             fails.append(("user_twice", f"user {key!r} occurs on {counts[key]} lines, expected {exp_counts.get(key, 0)}", key))
     for key in exp_counts:
-        if key in first and counts[key] < exp_counts[key]:
+        if key in first and counts[key] < exp_counts[key] and not (key in optional and counts[key] == 1):
             fails.append(("untouched_record_lost", f"{key!r}: {exp_counts[key]} lines expected, {counts[key]} written", key))
     if fails:
         return fails[:1]
-    a = strip_trailing_blank([it for it in items])
-    e = strip_trailing_blank([(it[0], it[1]) for it in exp_items])
+    # layout: comments / blank lines verbatim and everything in the original order
+    a, seen = [], set()
+    for it in strip_trailing_blank(items):
+        if it[0] == "rec":
+            if it[1] in seen:
+                if it[1] not in optional:
+                    a.append(("dup", it[1], it[2]))
+            else:
+                seen.add(it[1])
+                a.append(("rec", it[1]))
+        else:
+            a.append((it[0], it[1]))
+    e = []
+    for it in strip_trailing_blank([x for x in exp_items]):
+        if it[0] == "dup":
+            if it[1] not in optional:
+                e.append(it)
+        else:
+            e.append((it[0], it[1]))
     a_skip = [it[1] for it in a if it[0] == "skip"]
     e_skip = [it[1] for it in e if it[0] == "skip"]
     if a_skip != e_skip:
         fails.append(("comments_or_blank_lines_changed",
                       f"comment/blank lines {core.short(a_skip, 80)} differ from the original {core.short(e_skip, 80)}", None))
         return fails
-    a_ord = [(it[0], it[1]) for it in a]
-    e_ord = [(it[0], it[1]) for it in e]
-    if a_ord != e_ord:
-        fails.append(("order_changed", f"line order {core.short(a_ord, 100)} differs from {core.short(e_ord, 100)}", None))
+    if a != e:
+        fails.append(("order_changed", f"lines {core.short(a, 100)} differ from the expected {core.short(e, 100)}", None))
     return fails
 
 
@@ -525,6 +560,7 @@ def make_world(cfg):
     w.cfg, w.mat = cfg, mat
     w.dirty = False
     w.pending = []
+    w.diverged = []
     w.nsteps = 0
     w.vm = VirtualMtime()
     E["shim"].path.vm = w.vm
@@ -654,11 +690,8 @@ def situation(w, fail, key=None):
     if fail in TEXT_FAILS and unterm:
         return "after_unterminated_last_line"
     if fail == "absent_user_visible" and key is not None:
-        for t in m.tokens:
-            if t[0] == "skip":
-                it = classify(t[1], m.nf)
-                if it[0] == "rec" and it[1] == key:
-                    return "shadowed_duplicate_line"
+        if any(t[0] == "dup" and t[1] == key for t in m.tokens):
+            return "shadowed_duplicate_line"
     if fail in TEXT_FAILS and m.readded:
         return "after_delete_and_readd"
     return "-"
@@ -681,6 +714,8 @@ def apply_event(w, ev, acc=None):
     """apply one event to implementation and model; returns [(key, desc)]"""
     ev = tuple(ev)
     kind = ev[0]
+    if w.diverged:
+        return []
     w.nsteps += 1
     impl, m, mat, cfg = w.impl, w.model, w.mat, w.cfg
     digest = mat.cls == "htdigest"
@@ -818,8 +853,7 @@ def apply_event(w, ev, acc=None):
                 expect = ("ret", True) if kind == "lic" else ("any",)
 
                 def commit():
-                    m.tokens, m.recs, m.plain, m.unterminated = parsed
-                    m.readded = set()
+                    m.adopt(parsed)
                     m.loaded_mt = 0 if kind == "load2" else w.vm.getmtime(w.path)
     elif kind == "loadstr":
         fid, form = ev[1], ev[2]
@@ -836,15 +870,14 @@ def apply_event(w, ev, acc=None):
             expect = ("any",)
 
             def commit():
-                m.tokens, m.recs, m.plain, m.unterminated = parsed
-                m.readded = set()
+                m.adopt(parsed)
                 m.loaded_mt = 0
     elif kind == "ext":
         fid, bump = ev[1], ev[2]
         if not m.bound:
             raise HarnessError("ext event on an unbound object")
         data = mat.files[fid]
-        w.vm.external_write(w.path, data, bool(bump))
+        w.vm.external_write(w.path, data, int(bump))
         m.disk = m.snapshot_of(data)
         if acc is not None:
             acc.outcome((mat.cls, kind, "environment"))
@@ -864,7 +897,7 @@ def apply_event(w, ev, acc=None):
     oc = ("ret", core.short(res[1], 30) if kind != "to_string" else "bytes") if res[0] == "ret" else ("exc", type(res[1]).__name__)
     if acc is not None:
         acc.outcome((mat.cls, kind) + oc)
-        acc.cls(MODE, mat.cls, cfg["theme"], label(ev), oc[1], len(m.recs), len(m.tokens) - len(m.recs), m.bound, m.autosave)
+        acc.cls(MODE, mat.cls, cfg["theme"], label(ev), oc[1], len(m.recs), sum(1 for t in m.tokens if t[0] != "rec"), m.bound, m.autosave)
     if res[0] == "exc":
         e = res[1]
         if expect[0] == "exc" and isinstance(e, expect[1]):
@@ -919,6 +952,8 @@ def apply_event(w, ev, acc=None):
 def invariant(w):
     """model agreement of the reached state -> [(key, desc)]"""
     out = list((vkey(w, k), d) for k, d in w.pending) if w.nsteps == 0 else []
+    if w.diverged:
+        return list(w.diverged)
     if w.dirty:
         return out
     impl, m, mat = w.impl, w.model, w.mat
@@ -931,8 +966,7 @@ def invariant(w):
     if r[0] == "exc":
         bad(f"export:raises:{type(r[1]).__name__}:{situation(w, 'raises')}", f"to_string() raised {r[1]!r}")
         return out
-    items, recs = m.snapshot()
-    for fail, desc, key in compare_db(r[1], items, recs, mat):
+    for fail, desc, key in compare_db(r[1], m.snapshot(), mat):
         bad(f"export:{fail}:{situation(w, fail, key)}", f"to_string() = {core.short(r[1], 120)}: {desc}")
     if out:
         return out
@@ -946,7 +980,7 @@ def invariant(w):
         if data is None:
             bad("file:missing", f"{name} vanished / was never written")
             continue
-        for fail, desc, key in compare_db(data, exp[0], exp[1], mat):
+        for fail, desc, key in compare_db(data, exp, mat):
             bad(f"file:{fail}:{situation(w, fail, key)}", f"{name} = {core.short(data, 120)}: {desc}")
     if out:
         return out
@@ -995,11 +1029,17 @@ def invariant(w):
     return out
 
 
+def snap_canon(snap):
+    if snap is None:
+        return None
+    return (repr(snap["items"]), repr(sorted(snap["recs"].items(), key=repr)), repr(sorted(snap["optional"], key=repr)))
+
+
 def canon(w):
     m = w.model
     cur = current_mt(w) if m.bound else None
     return (observe(w), mt_class(w.impl.mtime, cur), m.canon(), mt_class(m.loaded_mt, cur),
-            core.short(m.disk, 100000), core.short(m.disk2, 100000))
+            snap_canon(m.disk), snap_canon(m.disk2))
 
 
 # ---------------------------------------------------------------------------
@@ -1030,10 +1070,12 @@ def alphabet(cfg, quick):
             dl = [("u1", d), ("u1", "r2"), ("u2", d)]
             ck = [("u1", d, "p1"), ("u1", "r2", "p1"), ("u1", d, "p2"), ("u2", d, "p1"), ("uu", "r2", "p2")]
         else:
-            sp = [(u, r, p) for u in ("u1", "u2", "uu") for r in (d, "r2") for p in ("p1", "p2")]
-            sh = [(u, r, f) for u in ("u1", "u2") for r in (d, "r2") for f in ("str", "bytes")]
-            dl = [(u, r) for u in ("u1", "u2", "uu") for r in (d, "r2")]
-            ck = [(u, r, p) for u in ("u1", "u2", "uu") for r in (d, "r2") for p in ("p1", "p2")]
+            # five (user, realm) keys; the full 3 x 2 x 2 product does not fit the budget at depth 6
+            sp = [("u1", d, "p1"), ("u1", d, "p2"), ("u1", "r2", "p1"), ("u1", "r2", "p2"), ("u2", d, "p1"), ("u2", d, "p2"),
+                  ("u2", "r2", "p1"), ("uu", "r2", "p2")]
+            sh = [("u1", d, "str"), ("u1", "r2", "bytes"), ("u2", d, "bytes"), ("uu", "r2", "str")]
+            dl = [("u1", d), ("u1", "r2"), ("u2", d), ("u2", "r2"), ("uu", "r2")]
+            ck = sp + [("uu", "r2", "p1")]
         evs += [("setpw",) + x for x in sp]
         evs += [("sethash",) + x for x in sh]
         evs += [("delete",) + x for x in dl]
@@ -1043,7 +1085,7 @@ def alphabet(cfg, quick):
         r = (("-" if cfg.get("realm") else "r1"),) if digest else ()
         evs += [("save",), ("load",), ("lic",)]
         if cfg["bind"] != "none":
-            evs += [("ext", "alt", 1), ("ext", "alt", 0), ("ext", "bad", 1)]
+            evs += [("ext", "alt", 1), ("ext", "alt", 0), ("ext", "alt2", -1), ("ext", "bad", 1)]
         evs += [("loadstr", "alt2", "str"), ("loadstr", "bad", "bytes"), ("loadstr", "noeol_comment", "bytes")]
         evs += [("load2",), ("save2",)]
         evs += [("autosave", 1), ("autosave", 0)]
@@ -1052,7 +1094,7 @@ def alphabet(cfg, quick):
         if digest:
             evs += [("delrealm", r[0])]
         if not quick:
-            evs += [("setpw", "uu") + r + ("p1",), ("delete", "u2") + r, ("check", "u2") + r + ("p1",), ("to_string",)]
+            evs += [("setpw", "uu") + r + ("p1",), ("delete", "u2") + r, ("to_string",)]
     else:
         raise HarnessError(f"theme {theme}")
     return evs
@@ -1097,7 +1139,9 @@ def roots(quick, seed):
                     add(cls=cls, theme="edit", init=init, enc=enc, args=args, realm=realm)
         for bind, init, autosave in (("file", "comments", 0), ("file", "comments", 1), ("new", "empty", 0), ("new", "empty", 1),
                                      ("none", "plain", 1), ("file", "dups", 1), ("file", "noeol_dup", 0)):
-            for enc, args in (forms[:1] if quick else (forms[0], forms[3])):
+            for enc, args in (forms[0], forms[3]):
+                if (enc, args) != forms[0] and (quick or (bind, init, autosave) not in (("file", "comments", 1), ("new", "empty", 0))):
+                    continue
                 add(cls=cls, theme="file", init=init, enc=enc, args=args, bind=bind, autosave=autosave,
                     realm=("r1" if cls == "htdigest" else None))
     return cfgs
@@ -1106,6 +1150,24 @@ def roots(quick, seed):
 # ---------------------------------------------------------------------------
 # exploration of one shard
 # ---------------------------------------------------------------------------
+def make_build(cfg):
+    def build(hist):
+        w = make_world(cfg)
+        for i, ev in enumerate(hist):
+            vs = apply_event(w, ev)
+            if vs or w.dirty:
+                # the same history on a FRESH object was clean before: rng and mtime are owned, so the only
+                # remaining source of a different run is state the implementation kept outside the object
+                w.diverged = [(vkey(w, "fresh_object:history_replays_differently"),
+                               f"[{MODE}] the history {' ; '.join(label(e) for e in hist[:i + 1])} ran clean on one fresh object and "
+                               f"gives {vs[0][1] if vs else 'a violation'} on another fresh object (state shared between objects?)")]
+                w.dirty = True
+                break
+        return w
+
+    return build
+
+
 def state_hash(cfg, k):
     return hashlib.blake2b(repr((cfg_id(cfg), k)).encode("utf-8", "backslashreplace"), digest_size=8).digest()
 
@@ -1120,13 +1182,7 @@ def explore_shard(task):
     evs = alphabet(cfg, quick)
     seen_hashes = set()
 
-    def build(hist):
-        w = make_world(cfg)
-        for ev in hist:
-            vs = apply_event(w, ev)
-            if vs or w.dirty:
-                raise HarnessError(f"replay of a clean history {hist!r} produced {vs!r}: the harness is not deterministic")
-        return w
+    build = make_build(cfg)
 
     def step(w, ev):
         acc.ev()
@@ -1493,10 +1549,18 @@ def run(ctx):
             (singles if mode == "normal" else batches[mode]).append(t)
     for case in default_cases():
         singles.append({"part": "default_context", "case": case})
-    # -O work: round-robin batches, one `python -O` subprocess each (heaviest first in the pool)
-    nb = 48 if quick else 160
-    obatches = [batches["O"][i::nb] for i in range(nb)]
-    tasks = singles + [{"batch": b, "mode": "O"} for b in obatches if b]
+    # heavy shards (file theme) first; the -O half runs in `python -O` subprocesses: one per heavy shard, the
+    # light ones in round-robin batches
+    def heavy(t):
+        return t["part"] == "explore" and t["cfg"]["theme"] == "file"
+
+    singles.sort(key=lambda t: not heavy(t))
+    oheavy = [{"batch": [t], "mode": "O"} for t in batches["O"] if heavy(t)]
+    olight = [t for t in batches["O"] if not heavy(t)]
+    nb = 32 if quick else 64
+    obatches = [{"batch": olight[i::nb], "mode": "O"} for i in range(nb) if olight[i::nb]]
+    nheavy = sum(1 for t in singles if heavy(t))
+    tasks = singles[:nheavy] + oheavy + singles[nheavy:] + obatches
     ctx.log(f"{sum(1 for t in singles if t['part'] == 'explore')} root configurations per mode, depth {depth}, "
             f"{len(names)} name cases per mode, {len(tasks)} tasks")
     acc = core.pmap(work, tasks)
@@ -1507,6 +1571,14 @@ def run(ctx):
             states |= nt["c16_states"]
             maxd = max(maxd, nt["max_depth"])
     acc.notes = []
+
+    def simplest_first(v):
+        case = v[2]
+        hist = case.get("history")
+        mode = case.get("mode") or (case.get("cfg") or {}).get("mode")
+        return (len(hist) if hist is not None else 0, mode != "normal")
+
+    acc.violations.sort(key=simplest_first)  # stable: the representative case of a key is a shortest history, normal mode first
     ctx.merge(acc)
     ctx.cov["states"] = len(states)
     ctx.cov["transitions"] = int(acc.counters.get("transitions", 0))
@@ -1536,14 +1608,14 @@ def _replay_here(case):
             if cfg["mode"] != MODE:
                 raise HarnessError("replay running in the wrong interpreter mode")
 
-            def build(hist):
-                w = make_world(cfg)
-                for ev in hist:
-                    apply_event(w, ev)
-                return w
-
             hist = [tuple(e) for e in case["history"]]
-            return explore.replay_history(build, lambda w, ev: apply_event(w, ev), invariant, hist)
+            found = explore.replay_history(make_build(cfg), lambda w, ev: apply_event(w, ev), invariant, hist)
+            seen, out = set(), []
+            for kd in found:
+                if kd not in seen:
+                    seen.add(kd)
+                    out.append(kd)
+            return out
         if part == "names":
             return [(k, f"[{MODE}] {d}") for k, d in eval_name(case)]
         if part == "default_context":
